@@ -105,6 +105,21 @@ def main():
                 lines.append("CHG rhs %d %d" % (ck.rng.randrange(nr), ck.rng.randint(3, 40)))
             lines += ["SOLVE DUAL", "ACCESS", "CHG delrow 0", "SOLVE " + ck.rng.choice(["DUAL", "PRIMAL"]), "ACCESS", "DUMP"]
             cases.append((cid, "\n".join(lines) + "\n"))
+        # degenerate dimensions (no rows / no columns / 1x1, also reached by deleting the last row or column) under every pricing rule
+        di = 0
+        for (n_, m_) in ((0, 1), (1, 0), (2, 0), (0, 2), (1, 1), (3, 0), (0, 0)):
+            for pp in PPRICE:
+                for dp in DPRICE:
+                    if not ck.thorough() and (di * 7 + pp + dp) % 3:
+                        di += 1
+                        continue
+                    di += 1
+                    cid = "dd%d" % di
+                    L = ["CASE %s" % cid, "LP d MIN %d %d" % (n_ + 1, m_ + 1)] + ["COL x%d %d %d inf" % (j, (-1) ** j * (j + 1), -2 + j) for j in range(n_ + 1)] + \
+                        ["ROW c%d L %d 0 %d %s" % (i, i + 1, n_ + 1, " ".join("%d %d" % (j, 1 + (i + j) % 3) for j in range(n_ + 1))) for i in range(m_ + 1)] + \
+                        ["PARAM 0 %d" % pp, "PARAM 2 %d" % dp, "CHG delrow %d" % m_, "CHG delcol %d" % n_,
+                         "SOLVE " + ["DUAL", "PRIMAL", "EXACT D", "EXACT P"][di % 4], "ACCESS", "SOLVE " + ["PRIMAL", "DUAL"][di % 2], "ACCESS", "GETBASIS", "DUMP"]
+                    cases.append((cid, "\n".join(L) + "\n"))
         # very long names / long numbers through every writer (lines of about 4096 characters and more)
         lens = list(range(4080, 4110)) if ck.thorough() else [4087, 4088, 4089, 4094, 4095, 4096, 4097, 4103, 4104]
         for L in lens:
